@@ -279,6 +279,18 @@ func checkC15(c *Check) {
 				c.Bad(p.FuncKey(st.Fn)+":index", p.Pos(st.Instr.Pos()), "an index/slice operation in the recovering code is not provably in bounds: a panic here happens after recover() and escapes ServeHTTP")
 			}
 		}
+		for _, f := range fns {
+			allInstrs(f, func(in ssa.Instruction) {
+				ci, ok := in.(ssa.CallInstruction)
+				if !ok || !ci.Common().IsInvoke() {
+					return
+				}
+				if n := ci.Common().Method.Name(); n == "Error" || n == "String" || n == "GoString" || n == "Format" {
+					bad++
+					c.Bad(p.FuncKey(f)+":calls-method-of-panic-value", p.Pos(in.Pos()), "the recovering code calls "+n+"() on a value itself (fmt guards such calls, a direct call does not): a panic value whose method panics — e.g. a typed nil pointer in an error — makes Recovery panic after recover()")
+				}
+			})
+		}
 		if bad == 0 {
 			c.OK(p.FuncKey(rec)+":total", p.FuncPos(rec), fmt.Sprintf("%d index sites in %d functions: all compiler-proven except %d of the form x[Index(x,…)+1:] on the found edge", len(sites), len(fns), nun), len(sites))
 		}
